@@ -145,3 +145,69 @@ func VerifH_C03_api_hardlink() {
 	vrt.Covered("links-compared")
 	_ = f.Close()
 }
+
+// per-group capacity: n members in one group, n forked around the symbol-table capacity (31, 32, 33, 34): every creation
+// either fails, or the member is present after reopen; the file always reopens.
+func verifCapacityScript(group string) {
+	vrt.LoopBound(2000)
+	fw, err := CreateForWrite("c03c.h5", CreateTruncate)
+	vrt.AssertNoErr(err, "create-ok")
+	prefix := "/"
+	if group != "" {
+		_, err := fw.CreateGroup(group)
+		vrt.AssertNoErr(err, "group-ok")
+		prefix = group + "/"
+	}
+	n := 31 + vrt.Choice(4)
+	names := make([]string, 0, n)
+	digits := "0123456789abcdefghijklmnopqrstuvwxyz"
+	created := map[string]bool{}
+	for i := 0; i < n; i++ {
+		name := prefix + "m" + string(digits[i])
+		var err error
+		if i%2 == 0 {
+			_, err = fw.CreateGroup(name)
+		} else {
+			var d *DatasetWriter
+			d, err = fw.CreateDataset(name, Int32, []uint64{1})
+			if err == nil {
+				vrt.AssertNoErr(d.Write([]int32{int32(i)}), "write-ok")
+			}
+		}
+		if i < 30 {
+			vrt.AssertNoErr(err, "member-below-capacity-accepted")
+		}
+		if err == nil {
+			created[name] = true
+			names = append(names, name)
+		}
+	}
+	vrt.AssertNoErr(fw.Close(), "close-ok")
+	f, err := Open("c03c.h5")
+	vrt.AssertNoErr(err, "reopen-ok")
+	tree, dup := verifTree(f)
+	vrt.Assert(!dup, "no-name-twice")
+	norm := map[string]bool{}
+	for p := range tree {
+		q := p
+		if len(q) > 1 && q[len(q)-1] == '/' {
+			q = q[:len(q)-1]
+		}
+		norm[q] = true
+	}
+	for _, nm := range names {
+		vrt.Assert(norm[nm], "created-path-present")
+	}
+	count := 0
+	for p := range norm {
+		if len(p) > len(prefix) && p[:len(prefix)] == prefix && p != group {
+			count++
+		}
+	}
+	vrt.Assert(count == len(names), "no-extra-path")
+	vrt.Covered("capacity-compared")
+	_ = f.Close()
+}
+
+func VerifH_C03_api_capacity_root() { verifCapacityScript("") }
+func VerifH_C03_api_capacity_group_thorough() { verifCapacityScript("/g") }
